@@ -148,6 +148,8 @@ def check(sc):
                     out.add("C07/pilot_without_active_session", "t=%d station %s pilot %r but no active session" % (t, s, v))
                     break
                 continue
+            if x["remaining"] <= x["min_pilot"] * x["voltage"] / (60.0 / sc["sim"]["period"]) / 1000.0:
+                out.probe("removed_finished_session")   # below one period at the minimum pilot: documented preprocessing drops it
             if v > x["rem_ap"] * (1 + 1e-9) + 1e-9:
                 out.add("C07/exceeds_remaining_demand", "t=%d station %s pilot %r > remaining demand %r A*periods (session %s)" % (t, s, v, x["rem_ap"], x["session_id"]))
                 break
